@@ -338,6 +338,7 @@ type T struct {
 //«annI»
 type I int
 
+//«annO»
 type Outer struct {
 	T
 	k int
@@ -414,6 +415,7 @@ func (t *T) OverwriteDirect(o T) {
 }
 
 // a defined pointer type: q.N stands for (*q).N
+//«annNP»
 type NP *T
 
 func ViaDefinedPointer(q NP) {
@@ -463,11 +465,19 @@ func ZZC01Edge() {
 	annT := nd.EnumPad("annT", " @immutable", " plain")
 	annI := nd.EnumPad("annI", " @immutable", " plain")
 	mutAB := nd.EnumPad("mutAB", " @mutable", " plain")
-	holes := []nd.Hole{{"annT", annT}, {"annI", annI}, {"mutAB", mutAB}}
+	// the embedding struct and the defined pointer type may carry the annotation themselves: a promoted field is a field of
+	// the embedding struct too, and q.N is a field write through a value of type NP
+	annO := nd.EnumPad("annO", " @immutable", " plain")
+	annNP := nd.EnumPad("annNP", " @immutable", " plain")
+	holes := []nd.Hole{{"annT", annT}, {"annI", annI}, {"mutAB", mutAB}, {"annO", annO}, {"annNP", annNP}}
 	prog := nd.LoadProgram([]nd.File{{Pkg: "zzmod/d", Name: "d.go", Src: c01SrcEdge}}, holes)
 	res := Analyze(prog, config.Default(), "zzmod/d", Facts{}, "imm")
 	immT := nd.HasPrefix(annT, " @immutable")
 	immI := nd.HasPrefix(annI, " @immutable")
+	immO := nd.HasPrefix(annO, " @immutable")
+	immNP := nd.HasPrefix(annNP, " @immutable")
+	immTO := nd.Or(immT, immO)
+	immTNP := nd.Or(immT, immNP)
 	f := "/zz/zzmod/d/d.go"
 	src := c01SrcEdge
 	CheckExact(res.Diags, []Expect{
@@ -481,11 +491,11 @@ func ZZC01Edge() {
 		{f, nd.LineOf(src, "E-PAREN-COMPOUND"), "IMM02", immT},
 		{f, nd.LineOf(src, "E-PAREN-BASE"), "IMM01", immT},
 		{f, nd.LineOf(src, "E-DEREF-BASE"), "IMM01", immT},
-		{f, nd.LineOf(src, "E-PROMOTED"), "IMM01", immT},
+		{f, nd.LineOf(src, "E-PROMOTED"), "IMM01", immTO},
 		{f, nd.LineOf(src, "E-EXPLICIT"), "IMM01", immT},
-		{f, nd.LineOf(src, "E-PROMOTED-INDEX"), "IMM04", immT},
-		{f, nd.LineOf(src, "E-PROMOTED-INC"), "IMM03", immT},
-		{f, nd.LineOf(src, "E-PROMOTED-COMPOUND"), "IMM02", immT},
+		{f, nd.LineOf(src, "E-PROMOTED-INDEX"), "IMM04", immTO},
+		{f, nd.LineOf(src, "E-PROMOTED-INC"), "IMM03", immTO},
+		{f, nd.LineOf(src, "E-PROMOTED-COMPOUND"), "IMM02", immTO},
 		{f, nd.LineOf(src, "E-PROMOTED-PTR"), "IMM01", immT},
 		{f, nd.LineOf(src, "E-PROMOTED-2LEVEL-PTR"), "IMM01", immT},
 		{f, nd.LineOf(src, "E-PROMOTED-2LEVEL-PTR-INDEX"), "IMM04", immT},
@@ -498,10 +508,10 @@ func ZZC01Edge() {
 		// E-METHOD-CTOR, E-ALIAS-METHOD-CTOR(-RECV): a listed method of the type itself is a constructor, however its receiver is spelled
 		{f, nd.LineOf(src, "E-ALIAS-RECV-SET"), "IMM01", immT},
 		{f, nd.LineOf(src, "E-DIRECT-RECV-SET"), "IMM01", immT},
-		{f, nd.LineOf(src, "E-DEFPTR-ASSIGN"), "IMM01", immT},
-		{f, nd.LineOf(src, "E-DEFPTR-INC"), "IMM03", immT},
-		{f, nd.LineOf(src, "E-DEFPTR-COMPOUND"), "IMM02", immT},
-		{f, nd.LineOf(src, "E-DEFPTR-INDEX"), "IMM04", immT},
+		{f, nd.LineOf(src, "E-DEFPTR-ASSIGN"), "IMM01", immTNP},
+		{f, nd.LineOf(src, "E-DEFPTR-INC"), "IMM03", immTNP},
+		{f, nd.LineOf(src, "E-DEFPTR-COMPOUND"), "IMM02", immTNP},
+		{f, nd.LineOf(src, "E-DEFPTR-INDEX"), "IMM04", immTNP},
 		{f, nd.LineOf(src, "E-DEFPTR-EXPLICIT"), "IMM01", immT},
 		{f, nd.LineOf(src, "E-ALIASPTR-ASSIGN"), "IMM01", immT},
 		{f, nd.LineOf(src, "E-ALIASPTR-INC"), "IMM03", immT},
@@ -511,6 +521,7 @@ func ZZC01Edge() {
 		{f, nd.LineOf(src, "E-ALIAS2-INC"), "IMM03", immT},
 		{f, nd.LineOf(src, "E-ALIAS2-COMPOUND"), "IMM02", immT},
 		{f, nd.LineOf(src, "E-ALIAS2-INDEX"), "IMM04", immT},
-		// E-OUTER-OWN, E-LOCAL-*: nothing
+		{f, nd.LineOf(src, "E-OUTER-OWN"), "IMM01", immO},
+		// E-LOCAL-*: nothing
 	}, "C01 edge forms")
 }
